@@ -33,6 +33,18 @@ ShapeS(n) ==
            YLen(i) == IF i > Len(ch) THEN 0 ELSE (IF ch[i][1] = "t" THEN 1 ELSE ch[i][6]) + YLen(i + 1)
        IN <<"n", n.p, n.s, n.e, Trim(ch), YLen(1)>>
 
+\* shape without offsets: what "the same tree" means for two renderings of one token string
+RECURSIVE ShapeK(_)
+ShapeK(n) ==
+  IF n.k = "t" THEN <<"t", n.t>>
+  ELSE LET ch == [i \in 1 .. Len(n.c) |-> ShapeK(n.c[i])]
+           RECURSIVE Trim(_)
+           Trim(x) == IF x # <<>> /\ x[Len(x)][1] = "n" /\ x[Len(x)][4] = 0
+                      THEN Trim(SubSeq(x, 1, Len(x) - 1)) ELSE x
+           RECURSIVE YLen(_)
+           YLen(i) == IF i > Len(ch) THEN 0 ELSE (IF ch[i][1] = "t" THEN 1 ELSE ch[i][4]) + YLen(i + 1)
+       IN <<"n", n.p, Trim(ch), YLen(1)>>
+
 AllLexed(r) == \A i \in 1 .. Len(r.lex) : r.lex[i][3] >= 0
 
 \* lexically ambiguous input: the harness supplies the token lattice
@@ -48,7 +60,7 @@ IsDerivationLat(C, n, lat) ==
   /\ WellFormedTree(C, n, TRUE)
   /\ PathOK(lat, Leaves(n))
 
-Monitors(r) ==
+Monitors(r, b) ==
   LET g2 == r.g2
       T  == Dumps[g2].t
       C  == Ctxs[g2]
@@ -70,7 +82,7 @@ Monitors(r) ==
               ELSE IF Len(w) <= 6 /\ f.n <= 300 THEN NTrees(C, w) ELSE -1
       IsDer(t) == IF islat THEN IsDerivationLat(C, t, lat) ELSE IsDerivation(C, t, w, TRUE)
       c03 ==
-        (IF gok /\ ~sent THEN {<<"accepted_nonsentence">>} ELSE {})
+        (IF gok /\ ~sent /\ ~r.partial THEN {<<"accepted_nonsentence">>} ELSE {})
         \cup (IF inScope /\ sent /\ ~gok /\ ~r.partial THEN {<<"rejected_sentence", r.gres.k>>} ELSE {})
         \cup (IF gok /\ ~r.partial
               THEN (IF \A i \in 1 .. Len(trees) : IsDer(trees[i]) THEN {}
@@ -97,7 +109,8 @@ Monitors(r) ==
                                    ELSE {<<"trees_differ">>})
                         ELSE {})
       expOff == IF vl < Len(w) THEN r.lex[vl + 1][1] ELSE Len(r.bytes)
-      c12 == IF r.gres.k # "err" \/ r.partial \/ ~meta.plain \/ ~Reduced(T, C.P) \/ islat THEN {}
+      anylex == "anylex" \in DOMAIN r.meta /\ r.meta.anylex
+      c12 == IF r.gres.k # "err" \/ r.partial \/ ~meta.plain \/ ~Reduced(T, C.P) \/ islat \/ anylex THEN {}
              ELSE (IF r.gres.o = expOff THEN {} ELSE {<<"error_offset", r.gres.o, expOff>>})
                   \cup (IF PosOK(r.bytes, r.gres.o, r.gres.l, r.gres.c) THEN {}
                         ELSE {<<"error_linecol", r.gres.o, r.gres.l, r.gres.c>>})
@@ -108,14 +121,50 @@ Monitors(r) ==
       \* binding of the OPERATIONAL module: GLRRuntime run on the same tokens over the
       \* same dumped table must predict the observed result and number of solutions
       \* (a difference is a DIVERGENCE, never a verdict)
-      model == IF islat \/ ~AllLexed(r) \/ cyc \/ r.partial \/ Len(w) > 6 \/ f.n > 300 THEN [k |-> "skip", n |-> 0]
-               ELSE LET G == Run(T, w)
+      model == IF islat \/ cyc \/ Len(w) > 6 \/ f.n > 300 THEN [k |-> "skip", n |-> 0]
+               ELSE LET G == RunP(T, w, r.partial)
                     IN [k |-> IF G.abort \/ G.hang THEN "abort" ELSE IF Len(G.acc) > 0 THEN "ok" ELSE "err",
                         n |-> IF Len(G.acc) > 0 /\ ~G.abort /\ ~G.hang THEN Solutions(G) ELSE 0]
       opdiv == model.k # "skip" /\ r.gres.k \in {"ok", "err"} /\ (model.k # r.gres.k \/ (gok /\ model.n # f.n))
+      \* twin records: b is the record this one is a variation of (b.iid = -1: none)
+      twin == IF "twin" \in DOMAIN r.meta /\ b.iid = r.iid /\ b.id = r.id THEN r.meta.twin ELSE ""
+      bok == b.gres.k = "ok"
+      bshapes == {ShapeK(b.forest.trees[i]) : i \in 1 .. Len(b.forest.trees)}
+      kshapes == {ShapeK(trees[i]) : i \in 1 .. Len(trees)}
+      \* C14 (second sentence): the same tokens with other layout between them give the same forest
+      c14 == IF twin # "layout" \/ r.gres.k \notin {"ok", "err"} \/ b.gres.k \notin {"ok", "err"} THEN {}
+             ELSE (IF gok = bok THEN {} ELSE {<<"layout_changes_result", b.gres.k, r.gres.k>>})
+                  \cup (IF gok /\ bok
+                        THEN (IF f.n = b.forest.n THEN {} ELSE {<<"layout_changes_solutions", b.forest.n, f.n>>})
+                             \cup (IF ~(f.complete /\ b.forest.complete) \/ kshapes = bshapes THEN {}
+                                   ELSE {<<"layout_changes_trees">>})
+                        ELSE {})
+      \* partial parse with GLR (no listed property speaks about it: reported as DIVERGENCE):
+      \* every tree derives a prefix of the tokens; what the full parse found is still found
+      nl(t) == NLeaves(t)
+      gp == (IF gok /\ r.partial /\ ~islat
+             THEN UNION {IF nl(trees[i]) > Len(w) THEN {<<"more_leaves_than_tokens">>}
+                         ELSE IF ~IsDerivation(C, trees[i], SubSeq(w, 1, nl(trees[i])), TRUE) THEN {<<"not_a_derivation_of_a_prefix", i>>}
+                         ELSE LET l == Leaves(trees[i])
+                              IN IF \A j \in 1 .. Len(l) : l[j].s = r.lex[j][1] /\ l[j].e = r.lex[j][1] + r.lex[j][2]
+                                 THEN {} ELSE {<<"leaves_are_not_the_tokens", i>>}
+                         : i \in 1 .. Len(trees)}
+             ELSE {})
+            \cup (IF twin = "partial" /\ bok /\ r.gres.k \in {"ok", "err"}
+                  THEN (IF gok THEN {} ELSE {<<"partial_rejects_accepted_input">>})
+                       \cup (IF gok /\ f.complete /\ b.forest.complete /\ ~(bshapes \subseteq kshapes)
+                             THEN {<<"partial_loses_tree">>} ELSE {})
+                  ELSE {})
   IN [cyclic |-> cyc, opdiv |-> opdiv, opmodel |-> model, c03 |-> c03, c07 |-> c07, c12 |-> c12, c13 |-> c13, c15 |-> c15,
+      c14 |-> c14, gp |-> gp,
       sent |-> sent, ok |-> gok, n |-> f.n, nexp |-> nexp, inscope |-> inScope, ntok |-> Len(w),
       lrran |-> lrran]
+
+NoRec == [iid |-> -1, id |-> ""]
+BaseOf(i) ==
+  LET r == Traces[i]
+      k == IF "base" \in DOMAIN r.meta THEN r.meta.base ELSE 0
+  IN IF k > 0 /\ i - k >= 1 THEN Traces[i - k] ELSE NoRec
 
 Init == ci = 0
 Next ==
@@ -124,7 +173,7 @@ Next ==
   /\ LET r == Traces[ci + 1]
      IN IF r.g2 > 0
         THEN PrintT(<<"VERDICT", ToJson([id |-> r.id, iid |-> r.iid, g2 |-> r.g2, partial |-> r.partial,
-                                          mon |-> Monitors(r)])>>)
+                                          mon |-> Monitors(r, BaseOf(ci + 1))])>>)
         ELSE TRUE
 Spec == Init /\ [][Next]_ci
 =============================================================================
